@@ -317,3 +317,11 @@ def replay(ctx: Ctx, payload) -> Tuple[bool, str]:
     if sub.failures:
         return False, sub.failures[0].what
     return True, "state dicts unchanged and reusable on this input"
+
+
+# ------------------------------------------------------------------------------------------------
+from . import _compose, e2en_parts  # noqa: E402
+
+_compose.extend(globals(), [
+    _compose.theorem_part("e2en", e2en_parts.THEOREMS_BY_PROP.get("C08", []), e2en_parts.LEAN_MODULES),
+])
